@@ -291,12 +291,17 @@ func evalTx(p *preState, spec txSpec, tx *types.Transaction, c concrete) *txResu
 			r.fail("rejected-reports-nothing", fmt.Sprintf("error %q but receipt=%v gas=%d cumulative=%d", r.errStr, rc != nil, gasRet, used))
 		}
 		// strict view: what the state would be if the caller finalised it now (on a copy, the original keeps its journal)
-		strict, oerr := observe(st.Copy(), before)
-		if oerr != nil {
-			r.fail("state-readable", oerr.Error())
-			return r
+		// (the root commits to every leaf: when it is unchanged the full read-back is skipped)
+		strict := before
+		stateDirty := false
+		if sc := st.Copy(); sc.IntermediateRoot(true) != before.root {
+			var oerr error
+			if strict, oerr = observe(sc, before); oerr != nil {
+				r.fail("state-readable", oerr.Error())
+				return r
+			}
+			stateDirty = true
 		}
-		stateDirty := strict.root != before.root || len(diff(before, strict)) != 0
 		poolDelta := int64(poolInit) - int64(poolAfter)
 		if stateDirty || poolDelta != 0 {
 			// Tolerated residue (assumption A2): a rejection decided after buyGas leaves exactly the purchase
